@@ -8,4 +8,6 @@ PROP = {'level': 'exploration',
                'not exercised',
  'technique': 'runtime monitoring: generated workloads + ground-truth model oracle over the real indexer and readers',
  'rule': 'see parts',
- 'runs': [{'name': 'indexall', 'pkg': '.', 'run': '^TestVerifC01$', 'timeout': '40m', 'timeout_thorough': '180m'}]}
+ 'race_allow': [r'main\.createAllIndexes', r'/indexes\.', r'/compactindexsized\.', r'/bucketteer\.', r'/blocktimeindex\.', r'/carreader\.', r'main\.\(\*Epoch\)'],
+ 'runs': [{'name': 'indexall', 'pkg': '.', 'run': '^TestVerifC01$', 'timeout': '40m', 'timeout_thorough': '180m'},
+          {'name': 'indexall-race', 'pkg': '.', 'run': '^TestVerifC01$', 'race': True, 'timeout': '60m', 'timeout_thorough': '180m', 'env': {'VERIF_PART_SUFFIX': '-race', 'VERIF_RACE': '1'}}]}
